@@ -135,7 +135,7 @@ namespace c16
     assemble_scale<SL2>(ms, space, cub, 3); if(!dec(c, opn, ms, IS, "scale")) return;
     LD diam = 0; { LD lo[3] = {1e300L, 1e300L, 1e300L}, hi[3] = {-1e300L, -1e300L, -1e300L}; for(auto& v : e.spec.verts) for(int d = 0; d < dim; ++d) { lo[d] = std::min(lo[d], (LD)v[std::size_t(d)]); hi[d] = std::max(hi[d], (LD)v[std::size_t(d)]); } for(int d = 0; d < dim; ++d) diam += hi[d] - lo[d]; }
     Scale S; S.s = &IS; S.bh = dim; S.bw = dim;
-    S.cmax = 2 * std::fabs((LD)bp.nu) + std::fabs((LD)bp.theta) + std::fabs((LD)bp.beta) * wmax + std::fabs((LD)bp.frechet_beta) * gwmax
+    S.cmax = 2 * std::fabs((LD)bp.nu) + std::fabs((LD)bp.theta) + std::fabs((LD)bp.beta) * wmax + std::fabs((LD)bp.frechet_beta) * grad_bound(gwmax, wmax, e.spec)
       + (bp.sd_delta != 0 && vnorm > 0 ? std::fabs((LD)bp.sd_delta) * 2 * diam / (LD)vnorm * wmax * wmax : 0.0L) + 1e-30L;
     S.cmax *= std::max<LD>(1, std::fabs((LD)alpha));
 
